@@ -70,6 +70,46 @@ class Device(object):
         self.written.append(b)
         return len(b)
 
+    # the rest of the file-object protocol, so that an implementation may read or write differently
+    def readable(self):
+        return True
+
+    def writable(self):
+        return True
+
+    def seekable(self):
+        return False
+
+    def tell(self):
+        return self.pos
+
+    def readinto(self, buf):
+        data = self.read(len(buf))
+        buf[:len(data)] = data
+        return len(data)
+
+    def readline(self, size=-1):
+        nl = '\n' if self.text else b'\n'
+        end = self.data.find(nl, self.pos)
+        end = len(self.data) if end < 0 else end + 1
+        if size is not None and size >= 0:
+            end = min(end, self.pos + size)
+        out = self.data[self.pos:end]
+        self.pos = end
+        self.reads += 1
+        return out
+
+    def __iter__(self):
+        while True:
+            line = self.readline()
+            if not line:
+                return
+            yield line
+
+    def writelines(self, lines):
+        for l in lines:
+            self.write(l)
+
     def close(self):
         self.closed += 1
 
